@@ -647,6 +647,18 @@ def run_case(ctx, inp):
         if not np.array_equal(tm, np.asarray(img, dtype=np.float64).T):
             raise RuntimeError("model transpose2 is not the transpose")
 
+    # model axis exchange (`swapImg`, the witness of `IsSwap` in bandpass_swap_axes) against numpy
+    if out.size <= 200:
+        a64 = np.asarray(img, dtype=np.float64)
+        for k in range(nd - 1):
+            r = ctx.ask("SWAP %d | %s | %s" % (k, f_sh, f_px))
+            shp = list(shape)
+            shp[k], shp[k + 1] = shp[k + 1], shp[k]
+            _, sm = parse_arr(r, tuple(shp))
+            if not np.array_equal(sm, np.swapaxes(a64, k, k + 1)):
+                raise RuntimeError("model swapImg %d is not numpy.swapaxes" % k)
+            res.stat("swapImg_checked")
+
     kept = int(np.count_nonzero(out > 0))
     zeroed = int(np.count_nonzero((out == 0) & (d_m != 0)))
     active = any(s > 0 and radius(s, tr) > 0 for s in lst) and any(m > 1 for m in llt)
